@@ -282,13 +282,36 @@ fn parse_listing_line(line: &str, _file_name: &str) -> Option<(usize, usize, usi
             _ => continue,
         };
         let area = RArea::parse_infix(area.trim_end())?;
-        // location: "...:<line>:<col><padding>" right in front of the command token
-        let before = line[..pos].trim_end();
-        let mut parts = before.rsplitn(3, ':');
-        let col: usize = parts.next()?.trim().parse().ok()?;
-        let l: usize = parts.next()?.trim().parse().ok()?;
+        // location: the last `:<digits>:<digits>` in front of the command token (whatever separators / padding follow it)
+        let before: Vec<char> = line[..pos].chars().collect();
         let _ = n;
-        return Some((idx, l, col, kind, h, d, area));
+        let mut j = before.len();
+        while j > 0 {
+            j -= 1;
+            if before[j] != ':' {
+                continue;
+            }
+            // digits after this ':' = column
+            let mut e = j + 1;
+            while e < before.len() && before[e].is_ascii_digit() {
+                e += 1;
+            }
+            if e == j + 1 {
+                continue;
+            }
+            // digits before this ':' preceded by another ':' = line
+            let mut b = j;
+            while b > 0 && before[b - 1].is_ascii_digit() {
+                b -= 1;
+            }
+            if b == j || b == 0 || before[b - 1] != ':' {
+                continue;
+            }
+            let col: usize = before[j + 1..e].iter().collect::<String>().parse().ok()?;
+            let l: usize = before[b..j].iter().collect::<String>().parse().ok()?;
+            return Some((idx, l, col, kind, h, d, area));
+        }
+        return None;
     }
     None
 }
